@@ -455,7 +455,7 @@ func (s *TermStore) Resize(a *Term, w uint8, signed bool) *Term {
 		if (a.Op == OZext || a.Op == OSext) && a.A[0].W < w {
 			return s.Resize(a.A[0], w, a.Op == OSext)
 		}
-		return s.mk(&Term{Op: OTrunc, Sort: SBV, W: w, A: []*Term{a}})
+		return s.Extract(a, w-1, 0)
 	}
 	if signed {
 		return s.mk(&Term{Op: OSext, Sort: SBV, W: w, A: []*Term{a}})
@@ -489,6 +489,16 @@ func (s *TermStore) Extract(a *Term, hi, lo uint8) *Term {
 	}
 	if lo == 0 && (a.Op == OZext) && a.A[0].W == w {
 		return a.A[0]
+	}
+	if a.Op == OLshr && a.A[1].IsConst() && a.A[1].C+uint64(hi) < uint64(a.W) {
+		return s.Extract(a.A[0], hi+uint8(a.A[1].C), lo+uint8(a.A[1].C))
+	}
+	if a.Op == OExtract {
+		base := uint8(a.C & 255)
+		return s.Extract(a.A[0], hi+base, lo+base)
+	}
+	if (a.Op == OZext) && hi < a.A[0].W {
+		return s.Extract(a.A[0], hi, lo)
 	}
 	return s.mk(&Term{Op: OExtract, Sort: SBV, W: w, C: uint64(hi)<<8 | uint64(lo), A: []*Term{a}})
 }
